@@ -469,7 +469,22 @@ pub fn mutate(r: &mut Rng, ft: &FieldType, v: &FieldValue) -> FieldValue {
 /// nodes 16384/16385), as (type, value, over-budget?) with a type that accepts the shape.
 pub fn budget_case(r: &mut Rng) -> (FieldType, FieldValue) {
     let over = r.chance(1, 2);
-    match r.below(6) {
+    match r.below(8) {
+        6 => {
+            // a Vector is one node when written and an array of its elements when read back
+            let n = if over { 4097 } else { 4096 };
+            let v = FieldValue::Vector((0..n).map(|i| bf16::from_bits(i as u16)).collect());
+            if r.chance(1, 2) {
+                (FieldType::Array(vec![]), FieldValue::Array(vec![v]))
+            } else {
+                (FieldType::Map(BTreeMap::new()), FieldValue::Map(BTreeMap::from([(FieldKey::Text("e".into()), v)])))
+            }
+        }
+        7 => {
+            // the same under a declared Vector type: folded back before validation
+            let n = if over { 4097 } else { 4096 };
+            (FieldType::Option(Box::new(FieldType::Vector)), FieldValue::Vector((0..n).map(|i| bf16::from_bits(i as u16)).collect()))
+        }
         0 => {
             // nesting depth through arrays: leaf at depth d
             let d = if over { 65 } else { 64 };
